@@ -250,6 +250,41 @@ pub open spec fn table_mappings(ctx: Seq<RegionMsg>, n: int) -> Seq<AddrMapping>
     Seq::new(n as nat, |j: int| AddrMapping { vmm_addr: ctx[j].user_addr, size: ctx[j].memory_size, gpa_base: ctx[j].guest_phys_addr })
 }
 
+
+// ---- SET_LOG_BASE (handler.rs set_log_base): "build all bitmaps first, then replace them in every current region"
+pub struct VhostUserLog { pub mmap_size: u64, pub mmap_offset: u64 }
+pub struct LogMapStub { pub id: Ghost<int> }
+// R6 target of Arc::new(MmapLogReg::from_file(file.as_fd(), off, size).map_err(..)?) (assumed: A-VMM; may fail)
+#[verifier::external_body]
+pub fn log_from_file(file: &FileStub, off: u64, size: u64) -> (r: VhostUserResult<LogMapStub>) { unimplemented!() }
+// a reference to the i-th region of a memory snapshot
+pub struct RegionRef { pub idx: Ghost<int> }
+pub struct InnerBitmapStub { pub for_region: Ghost<int>, pub log: Ghost<int> }
+impl MemSnapshot {
+    // R21 target of `mem.iter()`: the regions of the snapshot in order
+    #[verifier::external_body]
+    pub fn region_refs(&self) -> (r: Vec<RegionRef>)
+        ensures r@.len() == self.regions.len(), forall|i: int| 0 <= i < r@.len() ==> (#[trigger] r@[i]).idx@ == i
+    { unimplemented!() }
+}
+// R6 target of InnerBitmap::new(region, Arc::clone(&logmem)).map_err(..) — verified as AtomicBitmapMmap::new (new_bitmap above): may refuse
+#[verifier::external_body]
+pub fn inner_bitmap_new(region: &RegionRef, log: &LogMapStub) -> (r: VhostUserResult<InnerBitmapStub>)
+    ensures r is Ok ==> r->Ok_0.for_region@ == region.idx@ && r->Ok_0.log@ == log.id@
+{ unimplemented!() }
+pub open spec fn set_logged(v: Seq<RegionDesc>, i: int) -> Seq<RegionDesc> {
+    v.update(i, RegionDesc { gpa: v[i].gpa, size: v[i].size, file: v[i].file, off: v[i].off, logged: true })
+}
+impl AtomicMemStub {
+    // R8 target of `(*region).bitmap().replace(bitmap)`: the region object is shared with the installed memory (Arc), so the
+    // effect is on the current view (BitmapMmapRegion::replace installs the inner log: proved-by: c15_replace_installs_new_log)
+    #[verifier::external_body]
+    pub fn replace_bitmap(&mut self, region: &RegionRef, bitmap: &InnerBitmapStub)
+        requires 0 <= region.idx@ < old(self).view@.len(), bitmap.for_region@ == region.idx@
+        ensures final(self).view@ == set_logged(old(self).view@, region.idx@)
+    { unimplemented!() }
+}
+
 // ---------- handler.rs: set_backend_req_fd — a newly attached backend-request channel inherits the negotiated settings (C14)
 pub struct BackendProxyStub { pub reply_ack: bool, pub shared_object: bool, pub shmem: bool }
 impl BackendProxyStub {
